@@ -12,9 +12,31 @@ PROP = dict(
              "offset, English auctions switched off in the app's liquidation whitelisting, and - FABRICATED, model validation only - vault "
              "counter +1 / +random / -1 set directly through the keeper}) with all 13 block hooks called directly, or (hook, state) with a "
              "failure injected at store-gas consumption k of the hook run (quick: first / last / every 7th k of every ApplyFuncIfNoError "
-             "instance and of every unwrapped unit; thorough: every k); non-trivial = the hook changed state (env case) or performed store "
-             "accesses (crash case); distinct by (kind, state, fault / hook)",
-        modelled=["recover() and CacheContext themselves (Lib/Atomic.v), validated by the crash-point runs",
+             "instance and of every unwrapped unit; thorough: every k), or an ERROR case: a reachable state in which a unit RETURNS AN ERROR "
+             "after it has written - v2.vault (a vault on a fixed-price extended pair whose debt asset has no oracle price: collateral sent, "
+             "locked vault stored, then the dutch auction cannot start), v2.borrow (another borrower has taken the pool's collateral-asset "
+             "liquidity: borrow marked liquidated, then the collateral transfer fails; a smaller borrow of the same sweep succeeds), "
+             "v2.surplusdebt (English auctions off: lot taken from the collector, then the auction is refused), v2.auction (English surplus "
+             "auction with a bid past its end, app without token-mint record: lot and bid moved, then the burn fails), v2.limitbid (two limit "
+             "bids at one premium: the first closes the auction, the second fails on the stale auction), rewards.hook (two locker reward "
+             "programmes, kill switch on the later one's app: first programme paid, then the step fails), esm.hook (vault app under shutdown "
+             "with a vault whose debt asset has neither rate nor snapshot: earlier vaults moved and deleted, then the step fails); "
+             "non-trivial = the hook changed state (env case), performed store accesses (crash case) or a unit reported failure after "
+             "writing (error case); distinct by (kind, state, fault / hook / unit)",
+        modelled=["recover() and CacheContext themselves (Lib/Atomic.v), validated by the crash-point runs; types/utils.go ApplyFuncIfNoError is "
+                  "read statement by statement by the translator (apply_func_shape) and proved equal to Atomic.apply "
+                  "(c15_apply_func_is_atomic); the runner evaluates the same shape on a two-point store (Hooks.table_says_apply_atomic)",
+                  "how every ApplyFuncIfNoError closure treats the error of each call in it (OnErr ReturnsCallErr | SwallowsErr | "
+                  "UnrecognisedErr frames of the regenerated table, tools/goextract/emit_hooks_errflow.go): recognised shapes are "
+                  "`return f()`, `[x,] err := f()` followed by `if err != nil { ...; return E }` or `return err`, and the if-with-init form, "
+                  "with E the error itself / fmt.Errorf / errors.New / a Wrap of it / a package-level error variable; everything else that "
+                  "drops the error is SwallowsErr, unread shapes are UnrecognisedErr and fail the theorem. The error flow INSIDE the per-item "
+                  "functions (LiquidateIndividualVault ...) is not read: a unit 'reports failure' when its per-item call returns an error",
+                  "error cases: the reference for 'the failing unit contributed nothing, every other unit everything' is the run in which "
+                  "the same ApplyFuncIfNoError instance panics at its first store access; which items fail, and whether after writing, is "
+                  "established without the hook by calling the unit's exported per-item function on a branch of the store (for the two "
+                  "closures written inline - AuctionIterator, LimitOrderBid - through a transcription of the closure's dispatch); the "
+                  "runner compares Hooks.table_says_propagates && table_says_apply_atomic with 'the failing unit's cache was not written back'",
                   "error control flow of unwrapped code is not part of the table (conditionals are flattened)",
                   "reads, single store writes and bandoracle.FetchPrice outside wraps are taken as total (JStoreWrite / JBand)",
                   "the sweep window is modelled with Go's int64 wrap-around and the callers' int(uint64) conversions of the stored counter, "
@@ -35,8 +57,15 @@ PROP = dict(
                      "the expression panics only if counter > capacity), and the runner checks counter <= capacity on every other state",
                      "every module's parameters are present in the parameter store (written by InitGenesis, also for modules added by an "
                      "upgrade; no message deletes them) - GetParams in the unwrapped prologue of the sweeps is total under it",
-                     "failures are injected as panics at store accesses (out-of-gas at access k) and as environment faults; "
-                     "out-of-memory, stack overflow and fatal errors are outside every model",
+                     "failures are injected as panics at store accesses (out-of-gas at access k), as environment faults and as reachable "
+                     "failing-late inputs (error cases); out-of-memory, stack overflow and fatal errors are outside every model",
+                     "no reachable failing-late input exists for: liquidity.batch / liquidity.cleanup (ExecuteRequests, ProcessQueuedFarmers, "
+                     "DeleteOutdatedRequests, ConvertAccumulatedSwapFeesWithSwapDistrToken have no error result; internal errors panic), "
+                     "lend.hook (DeletePoolAndTransferInterest only fails when a transfer of a balance just read fails), UpdateDutchAuction / "
+                     "RestartDutchAuction / RestartEnglishAuction (their only write is the last statement); the first-generation hooks are not "
+                     "wired: their closures are tied by the table and the crash points only",
+                     "esm error case: the deposit target is set through SetCurrentDepositStats (the state MsgDepositESM leaves on an app "
+                     "with a governance token; the fixture's apps have none), the rest through AddESMTriggerParamsForApp / ExecuteESM / the hook",
                      "hooks are called directly with the keepers of a fresh app (the V1 liquidation / auction hooks are not wired into "
                      "AppModule.BeginBlock on this tree; Example c15_wiring)"],
     )
@@ -49,13 +78,23 @@ MANIFEST = dict(
                "registered with a justification; no unrecognised shape; no unknown hook) are proved by computation over it. The sweep window "
                "(GetSliceStartEndForLiquidations + reset + int(uint64) conversions + slice expression, int64 wrap included) is proved in range "
                "for every stored offset and every stored batch size when counter <= capacity (reachable states), and the slice expression is "
-               "proved to panic only if counter > capacity. Three defects reproduced on the real code and repaired: the V2 borrow sweep not "
+               "proved to panic only if counter > capacity. The error-return half ('or reports failure'): ApplyFuncIfNoError as read from "
+               "types/utils.go is proved to be Atomic.apply; a closure that hands a call's error on leaves the store unchanged when the call "
+               "reports failure after any writes (c15_error_after_writes_noop), in general no store on which a failure was reported is ever "
+               "committed by a body all of whose OnErr frames hand the error on (c15_no_failure_committed), a closure that drops the error "
+               "provably commits the partial store (c15_swallowed_error_commits_refuted, c15_apply_variants_refuted); over the regenerated "
+               "table every call of every unit - and every non-read leaf under any wrap of the 13 hooks - hands its error on "
+               "(c15_units_propagate_errors, c15_wrapped_writes_propagate). Five defects reproduced on the real code and repaired: the V2 borrow sweep not "
                "wrapped per item (C15-F1, fix C09-F3), offset+batchSize overflowing int for batch size 2^63-1 (C15-F2), the V2 surplus / debt "
-               "trigger not wrapped per (app, asset) (C15-F3); their witnesses are regression examples and harness cases. Tied to /repo by the "
-               "regenerated table, by crash-point enumeration on the real hooks and by the slice-panic prediction on every liquidation hook run.",
+               "trigger not wrapped per (app, asset) (C15-F3), the incentive hook and the emergency-shutdown hook committing the partial writes of a step "
+               "that reported failure (C15-F4, C15-F5: one closure that logged / skipped the step's error); their witnesses are regression "
+               "examples and harness cases. Tied to /repo by the "
+               "regenerated table, by crash-point enumeration on the real hooks, by seven reachable failing-late (error-return) cases and by "
+               "the slice-panic prediction on every liquidation hook run.",
     design_ref="DESIGN.md section 4 C15",
     level_note="c15_unwrapped_total_partial is partial: reads / single store writes / ibc send outside wraps are modelled as total; the sweep "
                "theorems carry the reachability hypothesis counter <= capacity (C01). No known-finding class remains. No axioms.",
     technique="Coq proof (generic atomicity over a hook language + finite table by vm_compute/forallb_forall + arithmetic lemmas) + translated "
-              "hook-shape table + crash-point enumeration against the real hooks",
+              "hook-shape table incl. closure error flow and the shape of ApplyFuncIfNoError + crash-point enumeration and reachable "
+              "error-return cases against the real hooks",
 )
